@@ -3,6 +3,7 @@ package rules
 import (
 	"fmt"
 	"go/ast"
+	"go/types"
 	"regexp"
 	"strings"
 
@@ -168,13 +169,30 @@ func init() {
 		})
 		// the helper's argument order matches its parameter meaning
 		if st := c.MustFunc("suspicionTimeout"); st != nil {
-			names := []string{}
+			// by use, not by spelling: the node count (2nd parameter) is what goes into the
+			// logarithm; the multiplier (1st) and the interval (3rd, a Duration) are not
+			var ps []types.Object
 			for _, f := range st.Decl.Type.Params.List {
 				for _, nm := range f.Names {
-					names = append(names, nm.Name)
+					ps = append(ps, p.Info.Defs[nm])
 				}
 			}
-			c.Check("C06/site/helper-params", "suspicionTimeout takes (multiplier, node count, interval) in that order", st.Decl.Pos(), len(names) == 3 && strings.Contains(strings.ToLower(names[0]), "mult") && names[1] == "n" && strings.Contains(strings.ToLower(names[2]), "interval"), strings.Join(names, ","))
+			logUses := map[types.Object]bool{}
+			inspectFn(st, func(n ast.Node) bool {
+				if call, ok := n.(*ast.CallExpr); ok {
+					if f := p.Callee(call); f != nil && strings.HasPrefix(core.FuncFullName(f), "math.Log") {
+						ast.Inspect(call, func(m ast.Node) bool {
+							if id, ok := m.(*ast.Ident); ok {
+								logUses[p.Info.Uses[id]] = true
+							}
+							return true
+						})
+					}
+				}
+				return true
+			})
+			okP := len(ps) == 3 && logUses[ps[1]] && !logUses[ps[0]] && !logUses[ps[2]] && core.NamedPkgOf(ps[2].Type()) == "time.Duration"
+			c.Check("C06/site/helper-params", "suspicionTimeout takes (multiplier, node count, interval) in that order: the second parameter is the one scaled logarithmically, the third is the interval", st.Decl.Pos(), okP, "parameter roles do not match (multiplier, node count, interval)")
 		}
 
 		// ---- 5. the timer closure re-validates before declaring dead
